@@ -89,6 +89,27 @@ def programs(ctx):
         p.make(2, 'Money', F(5), 'Z3')
         p.bin('Add', 1, 2, 3)          # converter removed: mixing is rejected again
         progs.append(p.d())
+    # zero is zero: after allocations in which a portion that rounded to zero received a quantum, every way of
+    # producing a zero amount in that unit still yields zero
+    for dm in (MODES if not quick else MODES[::3]):
+        p = Prog('c05-%s-zero' % dm)
+        p.setmode(dm)
+        for (t, u) in (('Money', 'Z2'), ('D', 'd'), ('Money', 'Z3'), ('E', 'he')):
+            qu = units[u]['quantum']
+            for n in (1, 2, 3):
+                p.make(1, t, qu * n, u)
+                p.num(2, F(1), 'int')
+                p.num(3, F(1), 'int')
+                p.num(4, F(1), 'int')
+                p.alloc(1, [2, 3] if n == 1 else [2, 3, 4], True)
+                p.make(5, t, F(0), u)                      # constructor
+                p.make(6, t, qu * 5, u)
+                p.bin('Sub', 6, 6, 5)                      # x - x
+                p.num(2, F(0), 'int')
+                p.bin('Mul', 6, 2, 5)                      # x * 0
+                p.make(5, t, qu * F(1, 4), u, 'frac')      # rounds to zero under most modes
+                p.neg(5, 5)
+        progs.append(p.d())
     # an amount with nine decimals divided by the quantum 1 (where the pinned decimalfp mis-divides, DESIGN 5.2)
     p = Prog('c05-dep')
     p.make(1, 'Money', F(41), 'Z0')
@@ -152,6 +173,9 @@ def run(ctx):
     # exchange-rate application: exact product with the stored rate, rounded once (Money.tla, big naturals)
     from checks import moneycheck
     moneycheck.judge(ctx, moneycheck.apply_cases(ctx, random.Random(ctx.seed)), 'rate-application')
+    # the constructor on user currencies with arbitrary smallest fractions: numbers of every kind, text, number * unit
+    from checks import c08
+    moneycheck.judge(ctx, c08.construct_cases(ctx.tier == 'quick'), 'construct', codes=['EUR'])
     # conversions by a dated money converter while its default date moves from one validity period to another:
     # every lookup and every converter call after every step of every short history (RateTable.tla)
     from checks import mconvcheck
